@@ -10,7 +10,7 @@ every residue (unbounded, pairwise distinct).
 """
 import itertools
 
-from engine.common import ok, RecLogger
+from engine.common import ok, RecLogger, concretize
 from engine.chsym import b_and
 
 PART = {}
@@ -32,7 +32,7 @@ META = {
     'assumptions': ['input residue numbers pairwise distinct (documented precondition after MergeChains)',
                     'with an overlapping second mapping only the warning and the particle count are judged (placement order '
                     'between two mappings on the same atoms is unspecified)'],
-    'outside': ['multi-residue and modification mappings', 'the shipped mapping files', 'chains longer than 4 residues'],
+    'outside': ['multi-residue mappings; modification mappings beyond a one-atom cap (order and constituents only)', 'the shipped mapping files', 'chains longer than 4 residues'],
 }
 
 _TOY = {}
@@ -253,6 +253,99 @@ def check_mapping(r0: int, r1: int, r2: int, r3: int) -> str:
     return ok()
 
 
+_MOD = {}
+
+
+def mod_toy():
+    # rebuilt for every run: mapping a second molecule with the same modification Mapping objects loses the modification
+    # particle on the pinned tree (observed while building this harness; see DESIGN 8.7) - not part of this claim
+    _MOD.clear()
+    from vermouth.molecule import Block, Link
+    from vermouth.forcefield import ForceField
+    from vermouth.map_parser import Mapping
+    ff = ForceField(name='modff')
+    cap = Link(force_field=ff, name='cap')
+    cap.add_node('mA', atomname='mA', PTM_atom=True, modifications=[cap])
+    maps = {}
+    for name in 'AB':
+        block = Block(force_field=ff, name=name)
+        block.add_node(name, atomname=name, resname=name, resid=1)
+        maps[name] = Mapping(block, block, mapping={name: {name: 1}}, references={}, ff_from=ff, ff_to=ff, names=(name,))
+    maps[('cap',)] = Mapping(cap, cap, mapping={'mA': {'mA': 1}}, references={}, ff_from=ff, ff_to=ff, names=('cap',),
+                             type='modification')
+    _MOD.update(ff=ff, cap=cap, maps={ff.name: {ff.name: maps}})
+    return _MOD
+
+
+def _build_and_map(t, first_key, r):
+    import vermouth.processors.do_mapping as dm
+    from vermouth.molecule import Molecule
+    order = PART['order']
+    mol = Molecule(force_field=t['ff'])
+    for offset, name in enumerate(order):
+        attrs = {'atomname': name, 'resname': 'A' if name in ('mA', 'A') else 'B', 'resid': r if name in ('mA', 'A') else 50,
+                 'element': 'C', 'chain': 'A'}
+        if name == 'mA':
+            attrs.update(PTM_atom=True, modifications=[t['cap']])
+        if name == 'A':
+            attrs.update(modifications=[t['cap']])
+        mol.add_node(first_key + offset, **attrs)
+    for offset in range(len(order) - 1):
+        mol.add_edge(first_key + offset, first_key + offset + 1)
+    saved = dm.LOGGER
+    dm.LOGGER = RecLogger()
+    try:
+        return dm.do_mapping(mol, t['maps'], t['ff'], attribute_keep=('chain',), attribute_stash=('resid',))
+    finally:
+        dm.LOGGER = saved
+
+
+def check_mod_mapping(first_key: int, r: int) -> str:
+    """
+    pre: 0 <= first_key <= 3
+    pre: r != 50
+    post: _ == ''
+    """
+    # a modification mapping (cap particle built from one PTM atom) next to block mappings: particles come out in input
+    # order whatever the node numbering starts at, and wherever the PTM atom stands relative to its residue
+    import vermouth.processors.do_mapping as dm
+    from vermouth.molecule import Molecule
+    t = mod_toy()
+    first_key = concretize(first_key)          # node keys are hashed: one offset per path
+    if PART.get('reuse'):
+        # known finding C01-mod-mapping-reuse: map an identical molecule first with the same Mapping objects
+        saved_part = dict(PART)
+        PART['reuse'] = False
+        _build_and_map(t, first_key, r)
+        PART.update(saved_part)
+    order = PART['order']                     # sequence of atom names in the input
+    mol = Molecule(force_field=t['ff'])
+    for offset, name in enumerate(order):
+        attrs = {'atomname': name, 'resname': 'A' if name in ('mA', 'A') else 'B', 'resid': r if name in ('mA', 'A') else 50,
+                 'element': 'C', 'chain': 'A'}
+        if name == 'mA':
+            attrs.update(PTM_atom=True, modifications=[t['cap']])
+        if name == 'A':
+            attrs.update(modifications=[t['cap']])
+        mol.add_node(first_key + offset, **attrs)
+    for offset in range(len(order) - 1):
+        mol.add_edge(first_key + offset, first_key + offset + 1)
+    recorder = RecLogger()
+    saved = dm.LOGGER
+    dm.LOGGER = recorder
+    try:
+        out = dm.do_mapping(mol, t['maps'], t['ff'], attribute_keep=('chain',), attribute_stash=('resid',))
+    finally:
+        dm.LOGGER = saved
+    got = [(out.nodes[k]['atomname'], sorted(out.nodes[k]['mapping_weights'])) for k in sorted(out.nodes)]
+    want = [(name, [first_key + offset]) for offset, name in enumerate(order)]
+    if got != want:
+        return 'particles of block and modification placements are not in input order with the atoms the mappings assign'
+    if recorder.types(levels=('WARNING',)):
+        return 'warning on a fully mapped molecule'
+    return ok()
+
+
 def warmup():
     global PART
     saved = PART
@@ -263,6 +356,9 @@ def warmup():
         res = check_mapping(5, 3, 7, 0)
         PART = {'kinds': ['X', 'Z'], 'layout': layout, 'extra_heavy': False, 'extra_h': False, 'overlap': True, 'bonds': [True]}
         check_mapping(5, 3, 0, 0)
+    for order in (['mA', 'A', 'B'], ['A', 'mA', 'B'], ['B', 'A', 'mA']):
+        PART = {'order': order}
+        check_mod_mapping(0, 4)
     PART = saved
 
 
@@ -284,6 +380,13 @@ def selftest(seed):
         runs += 1
         if res != ok():
             failures.append('check_mapping%r %r -> %s' % (tuple(resids + bonds), PART, res))
+    for order in (['mA', 'A', 'B'], ['A', 'mA', 'B'], ['B', 'A', 'mA'], ['B', 'mA', 'A']):
+        for fk in (0, 1, 3):
+            PART = {'order': order}
+            res = check_mod_mapping(fk, rng.choice([1, 7, 49]))
+            runs += 1
+            if res != ok():
+                failures.append('check_mod_mapping(%d) %r -> %s' % (fk, order, res))
     return {'runs': runs, 'failures': failures[:3]}
 
 
@@ -311,6 +414,9 @@ def cases(tier):
                                          'bonds': list(bonds), 'sym': k % n},
                                 'label': 'map[%s %s eh%d h%d bonds%s sym%d]' % (''.join(kinds), layout, eh, ehh, ''.join('1' if b else '0' for b in bonds), k % n),
                                 'timeout': 600, 'path_timeout': 60, 'twin': k % 9 == 0 and not any(bonds)})
+    for order in (['mA', 'A', 'B'], ['A', 'mA', 'B'], ['B', 'A', 'mA'], ['B', 'mA', 'A']):
+        out.append({'fn': 'check_mod_mapping', 'part': {'order': order}, 'label': 'modification-mapping[%s]' % ''.join(order),
+                    'timeout': 600, 'path_timeout': 60, 'twin': order[0] == 'mA'})
     for kinds in (['X', 'Y'], ['Z', 'X', 'X'], ['Y', 'Z']):
         out.append({'fn': 'check_mapping', 'part': {'kinds': kinds, 'layout': 'ascending', 'extra_heavy': False, 'extra_h': False,
                                                     'overlap': True, 'bonds': [True] * (len(kinds) * (len(kinds) - 1) // 2),
